@@ -22,6 +22,7 @@ LEVEL_TEXT = (
 )
 LEVEL_NOTE = "R-LABEL is 10 lines (monitors_more.r_label); nothing is drawn, the interceptor is the observation point. Zero interceptions make the run inconclusive."
 LEVEL_TEXT += ' One caller-owned alias dict is re-used over several calls (values rewritten in place, then a smaller architecture); each call is judged against what the caller wrote. Additionally an end-to-end soak: random projects on disk are scanned with the real scanner (externals kept or dropped, external exclusions, level limits, module_path below the root) and module rules, layer rules, diagram rules and plots are interleaved on those architectures with every monitor armed.'
+LEVEL_TEXT += ' Name pools include unusual legal identifiers (non-ASCII, combining marks, U+00B7, case / zero-padding twins, py*/init* names).'
 RULE = "an evaluation = one visualize() call judged at the backend; non-trivial = aliases given for >= 1 module on a tree with >= 3 modules; distinct = distinct (tree, alias map, options) triples"
 ASSUMPTIONS = ["matplotlib is importable (Agg backend); nothing is rendered"]
 SHARD_TIMEOUT = {"quick": 900, "thorough": 3000}
